@@ -130,8 +130,8 @@ theorem T7_3_binary_search_partition {ε α : Type} (f : α → Outcome ε Order
 
 /-! Non-vacuity (term hasher `TH`, which is `Sound`): a three-key set, the multi-proof built by
 `fromPathProofs` from two specified path proofs verifies against the specified root, finds the path of
-a key and confirms a true statement; a depth-mutated object reaches the explicit panic site
-(the known defect: `verify_range` slices out of range on malformed proofs). -/
+a key and confirms a true statement; a depth-mutated object is rejected with `InvalidDepth`
+(before /repo commit 2b65ee4 `verify_range` sliced out of range on it and panicked). -/
 example :
     let S : List (Key × Nat) := [([false, false], 7), ([false, true], 8), ([true, true], 9)]
     let p1 := proveSpec TH 2 S [false, true]
@@ -146,8 +146,10 @@ example :
           decide (confirmValue v [true, true] 9 = .ok true) &&
           decide (confirmValue v [false, false] 7 = .err .keyOutOfScope)
         | _ => false) &&
-       (verifyMulti TH { mp with paths := mp.paths.map (fun p => { p with depth := p.depth + 1 }) }
-          (nodeAt TH 2 0 S)).isPanic
+       (match verifyMulti TH { mp with paths := mp.paths.map (fun p => { p with depth := p.depth + 1 }) }
+          (nodeAt TH 2 0 S) with
+        | .err .invalidDepth => true
+        | _ => false)
      | _ => false) = true := by decide
 
 end Nomt.C07
